@@ -97,6 +97,9 @@ func (a *Adv) ContractProbes() int {
 			if !f(p) {
 				return
 			}
+			if p.ParentID == sp.ParentID && refV1ProofRoot(era, p.Leaf, p.Proof, idx, fc.Filesize) == fc.FileMerkleRoot {
+				return // by the tree definition the altered proof still proves the challenged leaf: not an unsound proof
+			}
 			if a.emit(blk, "v1-proof/"+name+"/era-"+era, "reject", map[string]string{"leaves": sizeClassLeaves(nLeaves)}, nil) {
 				n++
 			}
@@ -162,8 +165,17 @@ func (a *Adv) ContractProbes() int {
 				if used {
 					continue
 				}
-				oid := o.ID
-				mk("other-contract", func(p *types.StorageProof) bool { p.ParentID = oid; return true })
+				oid, ofc := o.ID, o.FileContract
+				mk("other-contract", func(p *types.StorageProof) bool {
+					// the proof must really be unsound for the other contract: in the two legacy eras only a prefix of the
+					// last leaf is bound (one byte of a 1-byte file), so a foreign leaf can coincide with it by chance
+					oidx := ref.ChallengeIndex(ofc.Filesize, a.G.C.Store.CI[ofc.WindowStart-1].ChainIndex.ID, oid)
+					if refV1ProofRoot(era, p.Leaf, p.Proof, oidx, ofc.Filesize) == ofc.FileMerkleRoot {
+						return false
+					}
+					p.ParentID = oid
+					return true
+				})
 				break
 			}
 		}
@@ -269,6 +281,9 @@ func (a *Adv) ContractProbes() int {
 				p := x.FileContractResolutions[ri].Resolution.(*types.V2StorageProof)
 				if !f(p) {
 					return
+				}
+				if p.ProofIndex.ChainIndex == sp.ProofIndex.ChainIndex && refV1ProofRoot("A", p.Leaf, p.Proof, idx, fc.Filesize) == fc.FileMerkleRoot {
+					return // still a proof of the challenged leaf by the tree definition (v2 binds the whole 64-byte leaf)
 				}
 				if a.emit(blk, "v2-proof/"+name, "reject", map[string]string{"leaves": sizeClassLeaves(nLeaves)}, nil) {
 					n++
@@ -485,3 +500,52 @@ func samePath(p []ref.H, q []types.Hash256) bool {
 }
 
 var _ = consensus.State{}
+
+// refV1ProofRoot is the root a v1 storage proof commits to under the leaf rule of the given era ("A": whole leaf;
+// "B": the last leaf cut to filesize%64 bytes, also when that is 0; "C": the last leaf cut only if the file does not
+// end on a leaf boundary), by the tree definition: audit path from the leaf towards the root in a tree of
+// NumLeaves64(filesize) leaves. A path of the wrong length gives the zero hash.
+func refV1ProofRoot(era string, leaf [64]byte, path []types.Hash256, idx, filesize uint64) types.Hash256 {
+	n := ref.NumLeaves64(filesize)
+	if n == 0 || idx >= n {
+		return types.Hash256{}
+	}
+	bound := leaf[:]
+	last := idx == n-1
+	switch {
+	case era == "B" && last:
+		bound = leaf[:filesize%64]
+	case era == "C" && last && filesize%64 != 0:
+		bound = leaf[:filesize%64]
+	}
+	var seg [64]byte
+	copy(seg[:], bound)
+	h := ref.LeafHash(seg[:])
+	// walk down the tree definition to learn on which side the sibling sits at every level (root first)
+	var sides []bool // true: our subtree is the right child
+	lo, size := uint64(0), n
+	for size > 1 {
+		k := uint64(1)
+		for k*2 < size {
+			k *= 2
+		}
+		if idx < lo+k {
+			sides = append(sides, false)
+			size = k
+		} else {
+			sides = append(sides, true)
+			lo, size = lo+k, size-k
+		}
+	}
+	if len(path) != len(sides) {
+		return types.Hash256{}
+	}
+	for i := range path {
+		if sides[len(sides)-1-i] {
+			h = ref.NodeHash(ref.H(path[i]), h)
+		} else {
+			h = ref.NodeHash(h, ref.H(path[i]))
+		}
+	}
+	return types.Hash256(h)
+}
